@@ -228,7 +228,8 @@ func runCaseOpt(kind string, c *Case, tr *hx.Trace, withCoq bool) {
 	obs := &Obs{}
 	rec.Observed = obs
 	fail := func(sig, detail string) {
-		if rec.Oracle != "fail" {
+		// the recorded known finding must never mask another failure of the same case
+		if rec.Oracle != "fail" || (rec.Sig == "supplemented-suffix-accept" && sig != rec.Sig) {
 			rec.Oracle, rec.Sig, rec.Detail = "fail", sig, detail
 		}
 	}
@@ -289,7 +290,16 @@ func runCaseOpt(kind string, c *Case, tr *hx.Trace, withCoq bool) {
 				expect = vReject
 			}
 		case "nonce":
-			nn = nonceBytes(c.Nonce + 1 + a.Pos)
+			switch {
+			case a.Pos == 10: // the same nonce with one byte appended
+				nn = append(append([]byte{}, nonce...), 'x')
+			case a.Pos == 11 && len(nonce) > 0: // the same nonce with its last byte changed
+				nn = append([]byte{}, nonce...)
+				nn[len(nn)-1] ^= 1
+			default:
+				nn = nonceBytes(c.Nonce + 1 + a.Pos)
+			}
+
 			expect = vReject
 		case "key":
 			other = true
@@ -521,7 +531,8 @@ func listAttacks(c *Case, r *hx.Rng) []Attack {
 		}
 	}
 
-	out = append(out, Attack{Kind: "nonce", Pos: r.Intn(3)}, Attack{Kind: "key"})
+	out = append(out, Attack{Kind: "nonce", Pos: r.Intn(3)}, Attack{Kind: "nonce", Label: "extended", Pos: 10},
+		Attack{Kind: "nonce", Label: "last-byte", Pos: 11}, Attack{Kind: "key"})
 
 	return out
 }
